@@ -69,7 +69,8 @@ def q3(a):
 
 # ---------------------------------------------------------------- generators
 KINDS = ['equal', 'refine', 'coarsen', 'shift', 'overlap', 'inside', 'outside', 'same_region',
-         'disjoint', 'touching']
+         'disjoint', 'touching', 'eqcount', 'eqcount_shift']
+NEAR = ['eqcount', 'eqcount_shift', 'equal']       # same cell count, nodes equal or metres apart
 
 
 def rand_nodes(rng, n, x0=None, den=8):
@@ -82,7 +83,50 @@ def rand_nodes(rng, n, x0=None, den=8):
     return xs
 
 
-def pair_1d(rng, kind, nmax=12):
+BIG_ORIGINS = [2.0 ** 19, 6.0 * 2.0 ** 20, 500000.0, 6000000.0, 131072.0, 9437184.0]
+
+
+def big_offset(rng):
+    """Large absolute coordinate (projected / UTM-like), exact in floats
+    together with the 1/16 m node grid: 1e5 .. 1e7."""
+    if rng.random() < 0.5:
+        return rng.choice(BIG_ORIGINS)
+    return float(rng.randint(100, 9700) * 1024)
+
+
+def pair_eqcount(rng, nmax, shift=False):
+    """Two DIFFERENT grids with the SAME number of cells whose corresponding
+    nodes differ by metres or less (metre-scale cell widths 10..60 m).  With
+    shift=True the second grid is the first one moved by a few metres (plus
+    moved interior nodes)."""
+    n = rng.randint(2, max(2, nmax))
+    a = [0.0]
+    for _ in range(n):
+        a.append(a[-1] + rng.randint(10, 60))
+    deltas = [0.125, 0.5, 1.0, 2.0, 4.0]
+    d0 = rng.choice(deltas) * rng.choice([1, -1]) if shift else 0.0
+    b = [x + d0 for x in a]
+    moved = False
+    for k in range(1, n):
+        if rng.random() < 0.7 or (not moved and k == n - 1 and not shift):
+            b[k] += rng.choice(deltas) * rng.choice([1, -1])
+            moved = True
+    return a, b
+
+
+def pair_1d(rng, kind, nmax=12, offset=0.0):
+    a, b = _pair_1d(rng, kind, nmax)
+    if offset:
+        a = [x + offset for x in a]
+        b = [x + offset for x in b]
+    return a, b
+
+
+def _pair_1d(rng, kind, nmax=12):
+    if kind == 'eqcount':
+        return pair_eqcount(rng, nmax, shift=False)
+    if kind == 'eqcount_shift':
+        return pair_eqcount(rng, nmax, shift=True)
     n1 = rng.randint(1, nmax)
     a = rand_nodes(rng, n1)
     if kind == 'equal':
@@ -175,7 +219,10 @@ def check_weights(ctx, n, dis, hist, samples):
     cases = []
     for c in range(n):
         kind = KINDS[c % len(KINDS)]
-        a, b = pair_1d(rng, kind)
+        off = big_offset(rng) if rng.random() < 0.4 else 0.0
+        a, b = pair_1d(rng, kind, offset=off)
+        if off:
+            hist['1d:large origin'] = hist.get('1d:large origin', 0) + 1
         cases.append((kind, a, b))
     chunks = [cases[i:i + 250] for i in range(0, len(cases), 250)]
     texts = []
@@ -227,11 +274,26 @@ def check_weights(ctx, n, dis, hist, samples):
 def case_3d(rng, idx, nmax):
     import emg3d
     kinds = [KINDS[(idx + d) % len(KINDS)] for d in range(3)]
+    offs = [0.0, 0.0, 0.0]
+    family = 'local'
     if idx % 5 == 0:
         kinds = ['same_region'] * 3
+    if idx % 3 == 1:
+        # survey at projected (UTM-like) coordinates: equal cell counts, corresponding
+        # nodes metres apart (or equal) in every direction, at least one direction differs
+        family = 'utm-near'
+        offs = [big_offset(rng), big_offset(rng), big_offset(rng) if rng.random() < 0.5 else 0.0]
+        kinds = [rng.choice(NEAR) for _ in range(3)]
+        if offs[2] == 0.0:
+            kinds[2] = 'equal'            # depth axis in local coordinates: identical nodes
+        if all(k == 'equal' for k in kinds):
+            kinds[rng.randint(0, 1)] = 'eqcount'
+    elif idx % 3 == 2:
+        family = 'utm'                # the usual families moved to large origins
+        offs = [big_offset(rng), big_offset(rng), 0.0 if rng.random() < 0.5 else big_offset(rng)]
     nodes, nnodes = [], []
-    for kd in kinds:
-        a, b = pair_1d(rng, kd, nmax)
+    for kd, off in zip(kinds, offs):
+        a, b = pair_1d(rng, kd, nmax, offset=off)
         nodes.append(a)
         nnodes.append(b)
     g = emg3d.TensorMesh([np.diff(x) for x in nodes], [x[0] for x in nodes])
@@ -240,7 +302,8 @@ def case_3d(rng, idx, nmax):
     u = values8(rng, tuple(len(x) - 1 for x in nnodes)) * rng.choice([1, -1])
     init = np.array(K.rand_arr(rng, tuple(len(x) - 1 for x in nnodes), False), float) \
         if rng.random() < 0.5 else np.zeros(tuple(len(x) - 1 for x in nnodes))
-    return dict(kinds=kinds, nodes=nodes, nnodes=nnodes, grid=g, ngrid=ng, v=v, u=u, init=init)
+    return dict(kinds=kinds, family=family, nodes=nodes, nnodes=nnodes, grid=g, ngrid=ng, v=v, u=u,
+                init=init)
 
 
 def coq_3d(c):
@@ -299,7 +362,7 @@ def check_3d(ctx, n, nmax, dis, hist, samples):
     nev = 0
     for i, c in enumerate(cases):
         rc, out = res[f"c15_v_{i}"]
-        brief = {'kinds': c['kinds'], 'nodes': [[float(x) for x in a] for a in c['nodes']],
+        brief = {'kinds': c['kinds'], 'family': c['family'], 'nodes': [[float(x) for x in a] for a in c['nodes']],
                  'new_nodes': [[float(x) for x in a] for a in c['nnodes']],
                  'values': [float.hex(float(x)) for x in c['v'].ravel()[:8]]}
         if i < 2:
@@ -318,7 +381,7 @@ def check_3d(ctx, n, nmax, dis, hist, samples):
         vol = ng.cell_volumes.reshape(shape_o, order='F')
         if abs(m_first - m_out_init[0]) > 1e-12 * max(1.0, abs(m_first)):
             dis.append({'what': 'model: interp_va differs from apply_va over its triples', 'case': brief})
-        hist['3d:' + '/'.join(c['kinds'])] = hist.get('3d:' + '/'.join(c['kinds']), 0) + 1
+        hist['3d:' + c['family']] = hist.get('3d:' + c['family'], 0) + 1
 
         def report(what, impl, model, k):
             dis.append({'what': what, 'case': brief, 'flat_index': k,
@@ -401,7 +464,11 @@ def correspondence(ctx):
         'evaluations': n1 + n3,
         'distinct_nontrivial': nt,
         'rule': "1-D: grid pairs cycling through equal/refine/coarsen/shift/overlap/inside/outside/same_region/"
-                "disjoint/touching, 1..12 cells, dyadic nodes (1/4..1/16), each run through the compiled "
+                "disjoint/touching/eqcount/eqcount_shift (equal cell counts, 10..60 m cells, corresponding "
+                "nodes 1/8..4 m apart), 1..12 cells, dyadic nodes (1/4..1/16), 40% of the pairs translated to "
+                "a large absolute origin (1e5..1e7, exact in floats); 3-D families: local / utm (same families "
+                "at large origins) / utm-near (equal counts, nodes equal or metres apart in EVERY direction, "
+                "large origins); each run through the compiled "
                 "routine and its .py_func, weights and indices compared EXACTLY with va_weights on Q; "
                 "distinct non-trivial = distinct (relation tags, sizes) other than equal grids. 3-D: per "
                 "direction a pair of 1..3 (thorough 4) cells, values 8-bit mantissa * 2^(-13..13); "
@@ -421,20 +488,39 @@ def search_case(seed, log):
     import emg3d
     from emg3d import maps
     rng = random.Random(seed)
-    same = rng.random() < 0.5
+    mode = rng.choice(['same', 'mixed', 'near'])
+    big = mode == 'near' or rng.random() < 0.5
+    offs = [big_offset(rng) if big else 0.0 for _ in range(3)]
+    if big and rng.random() < 0.5:
+        offs[2] = 0.0
     nodes, nnodes = [], []
     for d in range(3):
-        kind = 'same_region' if same else rng.choice(KINDS)
-        a, b = pair_1d(rng, kind, 12 if d == 0 else 5)
+        kind = {'same': 'same_region', 'mixed': rng.choice(KINDS), 'near': rng.choice(NEAR)}[mode]
+        if mode == 'near' and offs[d] == 0.0:
+            kind = 'equal'
+        if mode == 'near' and d == 1 and kind == 'equal' and nodes[0] == nnodes[0]:
+            kind = 'eqcount'
+        a, b = pair_1d(rng, kind, 12 if d == 0 else 5, offset=offs[d])
         nodes.append(a)
         nnodes.append(b)
     g = emg3d.TensorMesh([np.diff(x) for x in nodes], [x[0] for x in nodes])
     ng = emg3d.TensorMesh([np.diff(x) for x in nnodes], [x[0] for x in nnodes])
     npr = np.random.RandomState(seed % (2 ** 31))
     v = 10 ** npr.uniform(-4, 4, g.shape_cells)
-    base = {'seed': seed, 'log': log, 'nodes': [[float.hex(x) for x in a] for a in nodes],
+    base = {'seed': seed, 'log': log, 'mode': mode, 'offsets': offs,
+            'nodes': [[float.hex(x) for x in a] for a in nodes],
             'new_nodes': [[float.hex(x) for x in a] for a in nnodes]}
     out = maps.interpolate(g, v, ng, method='volume', log=log)
+    # translation invariance: the same two grids moved to local coordinates
+    if any(offs):
+        g0 = emg3d.TensorMesh(g.h, [x[0] - o for x, o in zip(nodes, offs)])
+        ng0 = emg3d.TensorMesh(ng.h, [x[0] - o for x, o in zip(nnodes, offs)])
+        out0 = maps.interpolate(g0, v, ng0, method='volume', log=log)
+        if not np.all(np.abs(out - out0) <= 1e-8 * np.abs(out0)):
+            k = int(np.argmax(np.abs(out - out0) / np.abs(out0)))
+            return dict(base, signature='volume averaging depends on a translation of both grids'
+                        + (' (log)' if log else ''), flat_index=k,
+                        observed=float(out.ravel()[k]), required=float(out0.ravel()[k]))
     f = (np.log10 if log else (lambda x: x))
     vol = g.cell_volumes.reshape(g.shape_cells, order='F')
     nvol = ng.cell_volumes.reshape(ng.shape_cells, order='F')
